@@ -26,6 +26,7 @@ func (fsm *storeFSM) Apply(l *raft.Log) interface{} {
 	s.mu.Lock()
 	defer s.mu.Unlock()
 
+	published := fsm.data
 	err := func() interface{} {
 		switch cmd.GetType() {
 		case internal.Command_RemovePeerCommand:
@@ -103,7 +104,13 @@ func (fsm *storeFSM) Apply(l *raft.Log) interface{} {
 		}
 	}()
 
-	// Copy term and index to new metadata.
+	// Copy term and index to new metadata. A command that failed (or needs
+	// no change) left fsm.data pointing at the value that is already
+	// published: snapshots and readers may hold that pointer, so it is never
+	// written to; the term and index go into a copy.
+	if fsm.data == published {
+		fsm.data = published.Clone()
+	}
 	fsm.data.Term = l.Term
 	fsm.data.Index = l.Index
 
